@@ -266,6 +266,10 @@ func vGoroutineSig() string {
 	return strings.Join(sigs, "|")
 }
 
+// vNativeSettle: no-op in the engine; natively it settles so that scripted events are
+// applied one after the other.
+func vNativeSettle() { vQuiescent() }
+
 func vFreezeEnv()   {}
 func vUnfreezeEnv() {}
 func vYield()       { runtime.Gosched() }
